@@ -78,6 +78,7 @@ fn cmd_ext(mut c: Command, items: &[Sx]) -> Command {
             "x-sub-heading" => c.subcommand_help_heading(l[0].string()),
             "x-sub-valname" => c.subcommand_value_name(l[0].string()),
             "x-template" => c.help_template(l[0].string()),
+            "x-flatten-help" => c.flatten_help(true),
             _ => c,
         };
     }
@@ -212,6 +213,13 @@ fn block_spec(block: &[&str]) -> Vec<String> {
 
 /// canonical projection of a rendered help screen
 fn project_help(text: &str) -> String {
+    project_help_mode(text, false)
+}
+
+/// `flat` (a case with `(x-flatten-help)` somewhere in its tree): the usage block is printed as its exact text
+/// (`(usagetext HEX)`, from `Usage:` to the blank line that ends the block), and every section carries the first
+/// word of the about that `write_flat_subcommands` writes under its heading (`none` when there is none).
+fn project_help_mode(text: &str, flat: bool) -> String {
     let lines: Vec<&str> = text.split('\n').collect();
     let mut out = String::new();
     let ui = lines.iter().position(|l| l.starts_with("Usage:"));
@@ -229,7 +237,11 @@ fn project_help(text: &str) -> String {
         utoks.extend(lines[i].split_whitespace());
         i += 1;
     }
-    out.push_str(&format!(" (usage {})", toks(&utoks[1..])));
+    if flat {
+        out.push_str(&format!(" (usagetext {})", hex(lines[ui..i].join("\n").as_bytes())));
+    } else {
+        out.push_str(&format!(" (usage {})", toks(&utoks[1..])));
+    }
     // sections
     while i < lines.len() {
         let l = lines[i];
@@ -242,6 +254,20 @@ fn project_help(text: &str) -> String {
         }
         out.push_str(&format!(" (sec {}", hex(l[..l.len() - 1].as_bytes())));
         i += 1;
+        if flat {
+            // the about of a flattened section: the unindented lines right under the heading
+            let mut about: Option<&str> = None;
+            while i < lines.len() && !lines[i].is_empty() && !lines[i].starts_with(' ') {
+                if about.is_none() {
+                    about = lines[i].split_whitespace().next();
+                }
+                i += 1;
+            }
+            match about {
+                Some(w) => out.push_str(&format!(" {}", hex(w.as_bytes()))),
+                None => out.push_str(" none"),
+            }
+        }
         while i < lines.len() {
             let l = lines[i];
             if !l.is_empty() && !l.starts_with(' ') {
@@ -284,6 +310,10 @@ fn project_help(text: &str) -> String {
     out
 }
 
+fn project_usage_flat(text: &str) -> String {
+    format!("(usagetext {})", hex(text.trim_end_matches('\n').as_bytes()))
+}
+
 fn project_usage(text: &str) -> String {
     let t: Vec<&str> = text.split_whitespace().collect();
     format!("(usage {})", toks(if t.is_empty() { &t } else { &t[1..] }))
@@ -309,6 +339,12 @@ fn help(a: &[Sx]) -> String {
         }
     };
     let mut cmd = cmd;
+    fn has_flatten(c: &Command) -> bool {
+        c.is_flatten_help_set() || c.get_subcommands().any(has_flatten)
+    }
+    let flat = has_flatten(&cmd);
+    let project_help = |t: &str| project_help_mode(t, flat);
+    let project_usage = |t: &str| if flat { project_usage_flat(t) } else { project_usage(t) };
     let which = &a[2].args()[0];
     let name = cmd.get_name().to_string();
     let (text, proj) = match which {
